@@ -17,14 +17,21 @@ def build_cases(rng, tier):
     for i in range(n):
         r = rng.fork("bf%d" % i)
         be = r.weighted([('nr', 4), ('r', 4), ('c99', 2)])
+        if i % 6 == 4:
+            be = 'cxx'          # the C++ class: buffers from streams only (no yy_scan_*), yywrap as an overridden virtual member
         prog = rulesets.gen_program(r, trailing=False, max_scs=0, csize=256)
-        hs = [bufprog.gen_history(r.fork("h%d" % k), prog, r.pick([10, 25, maxlen]), deep=(k == 2)) for k in range(3)]
+        hs = [bufprog.gen_history(r.fork("h%d" % k), prog, r.pick([10, 25, maxlen]), deep=(k == 2), files_only=(be == 'cxx')) for k in range(3)]
         if i % 8 == 3:
             hs.append(bufprog.gen_tower(r.fork("tower"), prog, r.pick([10, 12, 18, 19])))
         if i % 8 in (5, 1):
             # includes by yy_switch_to_buffer with a yywrap() that deletes the exhausted buffer and switches back
             hs.append(bufprog.gen_include_tower(r.fork("inc"), prog, r.pick([2, 3, 5, 9])))
-        cases.append({'id': "b%d" % i, 'prog': prog, 'backend': be, 'flex_opts': list(r.pick(OPTS)) + ["-8"], 'lineno': r.chance(60),
+        fo = list(r.pick(OPTS))
+        if be == 'cxx':
+            # (flex refuses -CF with -+, as documented; the C++ class reads character by character unless the scanner is a batch
+            # scanner: the histories' notion of "the whole file is buffered" needs block reads)
+            fo = [o for o in fo if o not in ("-CF", "-B")] + ["-B"]
+        cases.append({'id': "b%d" % i, 'prog': prog, 'backend': be, 'flex_opts': fo + ["-8"], 'lineno': r.chance(60),
                       'histories': hs, 'seed': r.s, 'text': ''})
     return cases
 
